@@ -57,7 +57,7 @@ def itMapNext : String := "var;asg<Next>;if{ret};ret<cb>"
 def itRunsNext : String := "if{for{asg<Next>;if{brk}};asg};asg<Peek>;if{ret};asg;ret"
 
 /-- `iterator.runsInnerIterator.Next` -/
-def itRunsInnerNext : String := "var;if{ret};asg<Peek>;if{asg;ret};asg;ret<Next>"
+def itRunsInnerNext : String := "var;if{ret};asg<Peek>;if<cb>{asg;ret};asg;ret<Next>"
 
 /-- `iterator.whileIterator.Next` -/
 def itWhileNext : String := "var;if{ret};asg<Next>;if{ret};if<cb>{asg;ret};ret"
@@ -147,7 +147,7 @@ def stRunsNext : String := "if{for{asg<Next>;if{brk}else if{ret}};call<Close>;as
 def stRunsClose : String := "call<Close>"
 
 /-- `stream.runsInnerStream.Next` -/
-def stRunsInnerNext : String := "var;if{ret};asg<Peek>;if{ret}else if{ret}else if{ret};asg;ret<Next>"
+def stRunsInnerNext : String := "var;if{ret};asg<Peek>;if{ret}else if{ret}else if<cb>{ret};asg;ret<Next>"
 
 /-- `stream.runsInnerStream.Close` -/
 def stRunsInnerClose : String := "asg"
@@ -169,5 +169,37 @@ def stOne : String := "defer<Close>;var;asg<Next>;if{ret}else if{ret};asg<Next>;
 
 /-- `stream.Reduce` -/
 def stReduce : String := "defer<Close>;asg;for{asg<Next>;if{ret}else if{ret};asg<fn>;if{ret}}"
+
+/-- `iterator.chanIterator.Next` -/
+def itChanNext : String := "asg;ret"
+
+/-- `iterator.emptyIterator.Next` -/
+def itEmptyNext : String := "var;ret"
+
+/-- `stream.chanStream.Next` / `Close` -/
+def stChanNext : String := "var;select{case{if{ret};ret};case{ret}}"
+def stChanClose : String := ""
+
+/-- `stream.emptyStream.Next` / `Close` -/
+def stEmptyNext : String := "var;ret"
+def stEmptyClose : String := ""
+
+/-- `stream.errorStream.Next` / `Close` -/
+def stErrorNext : String := "var;ret"
+def stErrorClose : String := ""
+
+/-- `xrand.rSampleStream`: `defer s.Close()` first; reads the stream in the inner loop (the outer loop's
+`samp.Next()` is the sampler, not the stream), leaves at the end, returns the error -/
+def sampleStream : String := "defer<Close>;asg;asg;asg<fn>;label:for{asg<Next>;for{asg<Next>;if{brk}else if{ret};if{asg;inc;brk};inc}};if{asg};call<fn>;ret"
+
+/-- the exported functions of `iterator`, of `stream`, and of `xslices` (the API the models, the driver
+and the generator of `harness/cmd/c07` cover: the harness reports a function it never called) -/
+def itApi : List String := ["Chan", "Chunk", "Collect", "Compact", "CompactFunc", "Counter", "Empty", "Equal", "Filter",
+  "First", "Flatten", "Join", "Last", "Map", "One", "Reduce", "Repeat", "Runs", "Slice", "While", "WithPeek"]
+def stApi : List String := ["Batch", "BatchFunc", "Chan", "Chunk", "Collect", "Compact", "CompactFunc", "Empty", "Error",
+  "Filter", "First", "Flatten", "FlattenSlices", "FromIterator", "Join", "Last", "Map", "Merge", "One", "Pipe", "Reduce",
+  "Runs", "While", "WithPeek"]
+/-- the `xslices` functions that have an iterator / stream namesake (the agreement clause of C07) -/
+def xsCounterparts : List String := ["Chunk", "Compact", "CompactFunc", "Equal", "Filter", "Join", "Map", "Reduce", "Repeat", "Runs"]
 
 end Juniper.Model.CombSkel
